@@ -592,3 +592,63 @@ def check_weed_filter(facts, chk, rule, tier):
     else:
         chk.ok(rule, key, 'generic_modes::weed (filter step)',
                'the saved table == documented effect (threshold floor(n x min_freq); untouched when nothing is requested) for every row over %s^n, n = 2..3, min_freq at and around every threshold, 4 filters x 8 flag combinations (%d runs)' % (alpha, nrun), evals=nrun)
+
+
+
+def check_wide(facts, chk, rule, tier):
+    """tables with 300 samples: per-row counts above 255, columns beyond index 255.  update_counts, filter at thresholds 255 / 256 / 257 and
+    delete_samples (first, last and two middle samples) against the plain-table model - a count or an index kept in a narrow integer
+    (u8) only shows here"""
+    key = rule + ':wide-table'
+    n = 300
+    names = ['w%03d' % i for i in range(n)]
+    rows = [(1, 'A' * n), (2, 'A' * 256 + '-' * 44), (3, '-' * 299 + 'C'), (4, 'C' * 255 + '-' * 45), (5, ('A-' * 150)), (6, '-' * 44 + 'G' * 256), (7, 'AC' * 128 + 'G' * 44)]
+    t = Table(names, rows)
+    bad = []
+    nrun = 0
+    # update_counts
+    arr = mk_array(facts, t, [1] * len(rows))
+    try:
+        run_op(facts, MSA + '::update_counts', [RefV(arr), BV(1, 0)])
+        nrun += 1
+        nm, kmers, rws, counts, ncols = read_array(facts, arr)
+        want, wc = spec_update_counts(t, 0)
+        if rws != [b for _, b in want.rows] or counts != wc:
+            bad.append(('update_counts', 'counts %s, recount %s' % (counts, wc)))
+    except Panic as e:
+        bad.append(('update_counts', 'panics on a 300-sample table: %s' % e.kind))
+    # filter at the thresholds around 256
+    for mc in (255, 256, 257, 300):
+        arr = mk_array(facts, t, [2] * len(rows))
+        try:
+            I = Interp(facts, {'IntT': 'u64'})
+            I.max_steps = 50_000_000
+            I.call_fn(MSA + '::filter', [RefV(arr), BV(64, mc), BV(1, 0), filter_type(facts, 'NoFilter'), BV(1, 0), BV(1, 0), BV(1, 1)])
+            nrun += 1
+            nm, kmers, rws, counts, ncols = read_array(facts, arr)
+            want, wc, _ = spec_filter(t, mc, 0, 'NoFilter', 0, 0)
+            if list(zip(kmers, rws)) != list(want.rows):
+                bad.append(('filter min_count=%d' % mc, 'kept k-mers %s, specified %s' % (kmers, [k for k, _ in want.rows])))
+        except Panic as e:
+            bad.append(('filter min_count=%d' % mc, 'panics: %s' % e.kind))
+    # delete_samples
+    for dels in (['w000'], ['w299'], ['w255', 'w256'], ['w100', 'w257', 'w001', 'w298']):
+        arr = mk_array(facts, t, [3] * len(rows))
+        sl = Agg('array', 0, [RefV(Cell(StrV(list(x)), 'nm')) for x in dels])
+        try:
+            I = Interp(facts, {'IntT': 'u64'})
+            I.max_steps = 50_000_000
+            I.call_fn(MSA + '::delete_samples', [RefV(arr), RefV(Cell(sl, 'del'), (), (0, len(dels)))])
+            nrun += 1
+            nm, kmers, rws, counts, ncols = read_array(facts, arr)
+            want = spec_delete(t, dels)
+            if (nm, kmers, rws) != (want.names, [k for k, _ in want.rows], [b for _, b in want.rows]):
+                bad.append(('delete %s' % dels, 'result differs from the table of the remaining %d samples (k-mers %s, specified %s)' % (n - len(dels), kmers, [k for k, _ in want.rows])))
+            elif counts != [count(b, False) for _, b in want.rows]:
+                bad.append(('delete %s' % dels, 'stored counts %s are not the recount %s' % (counts, [count(b, False) for _, b in want.rows])))
+        except Panic as e:
+            bad.append(('delete %s' % dels, 'panics: %s' % e.kind))
+    if bad:
+        chk.violation(rule, key, where=MSA, evals=nrun, detail='%d problems on a 300-sample table; first: %s: %s' % (len(bad), bad[0][0], bad[0][1][:300]))
+    else:
+        chk.ok(rule, key, MSA, 'update_counts, filter at thresholds 255 / 256 / 257 / 300 and delete_samples on a 300-sample table (rows present in 1, 150, 255, 256 and 300 samples) == plain-table model (%d runs)' % nrun, evals=nrun)
